@@ -540,6 +540,7 @@ func (sc *semCase) sources() map[string]string {
 type semVerdict struct {
 	Sig, Msg string
 	Obs      observation
+	Calls    []probeCall
 }
 
 func runSem(sc *semCase, src string, checkLog bool) semVerdict {
@@ -575,6 +576,9 @@ func runSem(sc *semCase, src string, checkLog bool) semVerdict {
 			v.Sig, v.Msg = "value-differs", fmt.Sprintf("expected %q, rendered %q: %s", trunc(expectedText(sc.Expect.Pieces), 80), trunc(o.Out, 80), why)
 		}
 	}
+	env.mu.Lock()
+	v.Calls = append([]probeCall{}, env.calls...)
+	env.mu.Unlock()
 	if v.Sig == "" && checkLog && sc.Expect.K != "unspec" {
 		if ok, why := matchLog(env, sc.Expect.Log); !ok {
 			v.Sig, v.Msg = "probes-differ", why
